@@ -390,7 +390,8 @@ FWD_FIXED = [
 ]
 
 
-FWD_WATCH = ["fwd watch k=1 delay=150", "fwd watch k=2", "fwd create k=1", "fwd watch k=3 delay=80", "fwd update k=1", "fwd watch k=4 delay=200"]
+FWD_WATCH = ["fwd watch k=1 delay=150", "fwd watch k=2", "fwd create k=1", "fwd watch k=3 delay=80", "fwd update k=1", "fwd watch k=4 delay=200",
+             "fwd noleader k=5", "fwd create k=6", "fwd noleader k=7"]
 
 
 def fwd_cases(r, quick):
@@ -419,6 +420,14 @@ def fwd_oracle(case):
         if t[0] != "fwd":
             continue
         where = "line %d: %s -> %s" % (i + 1, line, out)
+        if t[1] == "noleader":
+            if "refused=3" not in o:
+                return (where + ": a follower whose proxy knows no leader did not refuse a forwarded watch as unavailable", "forward-without-leader")
+            if "recovered=1" not in o:
+                return (where + ": after refusing requests while no leader was known, the follower's proxy never forwards again although "
+                        "the election names the leader" + (" - its calls do not even return when their context ends (wedged)" if "hung=1" in o else ""),
+                        "proxy-wedged-after-refusal")
+            continue
         if t[1] == "watch":
             if o[:3] == ["fwd", "watch", "created"] and "delivered=0" in o:
                 return (where + ": the follower answered Created for a forwarded watch from `now`, the write issued after that was "
